@@ -20,7 +20,7 @@ pub fn info() -> super::Info {
         level: "exploration",
         assumptions: vec![
             "the root role's own keys never change in these histories (C02 covers root rotation); newer roots change the keys of timestamp / snapshot / targets",
-            "the exemption of the statement is read permissively: any root newer than trusted_j that the client walked to in any cycle after j (up to and including k) and that changed keys or threshold of the role (for timestamp and snapshot: of either; for the snapshot-listed targets version: of timestamp, snapshot or targets) lifts the constraint",
+            "the exemption of the statement is read permissively: any root newer than trusted_j that the client walked to in any cycle after j (up to and including k) and that changed keys or threshold of the role (for timestamp and snapshot, and for the targets version listed in the snapshot: of either of the two) lifts the constraint",
             "versions lower than something only a failed cycle stored may be accepted or refused",
         ],
     }
@@ -229,7 +229,9 @@ pub fn prop_with(case: &Case, known_stale: bool, known_root: bool) -> Outcome {
                 let roles: &[usize] = match r {
                     0 | 1 => &[0, 1],
                     2 => &[2],
-                    _ => &[0, 1, 2],
+                    // the listing lives in the snapshot: the role concerned is snapshot (hence
+                    // timestamp or snapshot), as in the TUF specification's fast-forward recovery
+                    _ => &[0, 1],
                 };
                 // "a root newer than the one trusted in the earlier cycle": any root the client came
                 // to trust in a successful cycle after j, up to and including k
